@@ -201,6 +201,8 @@ pub struct World {
     /// Pascal on a flat PO image: the request for the concrete model (driver family `fsp`) describing the last
     /// operation, and — for queries — the answer the real code gave (None: a mutating operation, answer must be `ok`)
     pas_op: Option<(String, Option<String>)>,
+    /// operations to execute before any generated one (last element first)
+    forced: Vec<Op>,
     /// DOS 3.x on a flat DO / D13 image: the same for the concrete DOS model (driver family `fsd`)
     dos_op: Option<(String, Option<String>)>,
 }
@@ -387,7 +389,7 @@ fn gen_chunk(rng: &mut Rng, len: usize) -> Vec<u8> {
 // ------------------------------------------------------------------------------------------
 // operations
 
-enum Op { Put { path: String, nchunks: usize, holes: bool, last_len: usize, ftype_sel: usize }, Delete(String), Rename(String, String), Lock(String), Unlock(String), Retype(String, usize), Mkdir(String), PutDup(String), RenameOnto(String, String), GetMissing(String), DeleteMissing(String), Protect(String), Unprotect(String) }
+enum Op { Put { path: String, nchunks: usize, holes: bool, last_len: usize, ftype_sel: usize }, Delete(String), Rename(String, String), Lock(String), Unlock(String), Retype(String, usize), Mkdir(String), PutDup(String), RenameOnto(String, String), GetMissing(String), DeleteMissing(String), Protect(String), Unprotect(String), PutBad(usize) }
 
 pub struct Verdicts<'a> { pub out: &'a mut Out, pub focus: Focus, pub idx: usize, pub cfgid: String }
 impl<'a> Verdicts<'a> {
@@ -433,7 +435,16 @@ pub fn run(ctx: &mut Ctx, focus: Focus) {
         let cfg = if idx % 3 != 2 { flats[(idx / 3 * 2 + idx % 3) % flats.len()].clone() } else { cfgs[(idx / 3) % cfgs.len()].clone() };
         let slow = matches!(cfg.container, "woz1" | "woz2" | "nib" | "2mg-nib") || cfg.kind == names::A2_HD_MAX;
         let steps = if slow { crng.range(4, 10) } else if ctx.tier_thorough { crng.range(10, 60) } else { crng.range(8, 36) };
-        one_history(ctx, focus, idx, &cfg, steps, &mut crng, drv.as_mut());
+        one_history(ctx, focus, idx, &cfg, steps, &mut crng, drv.as_mut(), Vec::new());
+    }
+    // once per run (too big to build per history): after one ordinary file, a Pascal file image with 65536 chunk keys
+    if matches!(focus, Focus::C01 | Focus::C02 | Focus::C03 | Focus::C05) && ctx.out.wants(n_hist) {
+        if let Some(cfg) = cfgs.iter().find(|c| c.fs == Fs::Pascal && c.flat && c.container == "po") {
+            let cfg = cfg.clone();
+            let mut crng = rng.fork(n_hist as u64);
+            let forced = vec![Op::PutBad(9), Op::Put { path: "KEEP".to_string(), nchunks: 3, holes: false, last_len: 100, ftype_sel: 1 }];
+            one_history(ctx, focus, n_hist, &cfg, 2, &mut crng, drv.as_mut(), forced);
+        }
     }
     if let Some(d) = &drv { ctx.out.count_n("lean-requests", d.requests); }
 }
@@ -516,7 +527,7 @@ fn post_step(w: &mut World, vd: &mut Verdicts, drv: &mut Option<&mut Drv>, tie: 
     }
 }
 
-fn one_history(ctx: &mut Ctx, focus: Focus, idx: usize, cfg: &VolCfg, steps: usize, rng: &mut Rng, mut drv: Option<&mut Drv>) {
+fn one_history(ctx: &mut Ctx, focus: Focus, idx: usize, cfg: &VolCfg, steps: usize, rng: &mut Rng, mut drv: Option<&mut Drv>, forced: Vec<Op>) {
     let cfgid = format!("{}/{}/{}", cfg.fs.id(), cfg.container, cfg.kind_name);
     ctx.out.count(&format!("cfg:{}", cfgid));
     let disk = match guarded(|| make_volume(cfg)) {
@@ -524,7 +535,8 @@ fn one_history(ctx: &mut Ctx, focus: Focus, idx: usize, cfg: &VolCfg, steps: usi
         Ok(Err(e)) => { ctx.out.count(&format!("mkvol-error:{}:{}", cfgid, e)); return; }
         Err(p) => { let mut vd = Verdicts { out: &mut ctx.out, focus, idx, cfgid: cfgid.clone() }; vd.panic(&p, "format", &[]); return; }
     };
-    let mut w = World { cfg: cfg.clone(), disk, files: BTreeMap::new(), dirs: BTreeSet::new(), chunk_len: 0, hist: Vec::new(), lean_op: None, last_op: None, pas_op: None, dos_op: None };
+    let mut w = World { cfg: cfg.clone(), disk, files: BTreeMap::new(), dirs: BTreeSet::new(), chunk_len: 0, hist: Vec::new(), lean_op: None, last_op: None, pas_op: None, dos_op: None, forced: Vec::new() };
+    w.forced = forced;
     w.chunk_len = match guarded(|| w.disk.new_fimg(None, false, if cfg.fs.is_cpm() || cfg.fs == Fs::Fat { "A.TXT" } else { "A" })) { Ok(Ok(f)) => f.chunk_len, _ => 512 };
     let mut tie = LeanTie { prev: Vec::new(), opened: false };
     let use_lean = drv.is_some() && (cfg.flat || cfg.fs.is_cpm()) && lean_supported(cfg.fs);
@@ -540,7 +552,7 @@ fn one_history(ctx: &mut Ctx, focus: Focus, idx: usize, cfg: &VolCfg, steps: usi
             if let Some(e) = lean_sync(d, &mut tie, &mut w) { vd.out.count(&format!("lean-sync-error:{}", e)); }
             else {
                 lean_check(d, &mut w, &mut vd, "format", None);
-                if use_pas { pas_tie(d, &mut w, &mut vd, &format!("format {} {} {} ok", hxs("VERIF"), 0xee, hx(&pas_date())), None, "format"); }
+                if use_pas { pas_tie(d, &mut w, &mut vd, &format!("format {} {} {} ok", hxs("VERIF"), 0xee, hx(&pas_date())), None, "format"); pas_queries(d, &mut w, &mut vd, "format"); }
                 if use_dos { dos_tie(d, &mut w, &mut vd, &format!("init {} 254 ok", if cfg.fs == Fs::Dos32 { 13 } else { 16 }), None, "format"); }
             }
         }
@@ -668,6 +680,7 @@ fn slow_cfg(cfg: &VolCfg) -> bool { matches!(cfg.container, "woz1" | "woz2" | "n
 fn lean_supported(fs: Fs) -> bool { std::env::var("A2V_LEAN_FS").map(|s| s.split(',').any(|x| x == fs.id())).unwrap_or(true) }
 
 fn choose_op(w: &mut World, rng: &mut Rng, free: usize, focus: Focus) -> Op {
+    if let Some(op) = w.forced.pop() { return op; }
     let fs = w.fs();
     let existing: Vec<String> = w.files.keys().cloned().collect();
     let r = rng.below(100);
@@ -697,6 +710,8 @@ fn choose_op(w: &mut World, rng: &mut Rng, free: usize, focus: Focus) -> Op {
     }
     if r < 84 { return Op::PutDup(pick(rng)); }
     if r < 89 && existing.len() >= 2 { let a = pick(rng); let b = pick(rng); if a != b { return Op::RenameOnto(a, b); } }
+    // Pascal: a file image the 16-bit directory fields cannot record (length beyond the chunks, over-long chunk, length too short)
+    if fs == Fs::Pascal && r < 93 && rng.chance(40) { return Op::PutBad(rng.below(3)); }
     if r < 93 { return Op::GetMissing(gen_name(fs, rng, &w.dirs)); }
     if r < 96 { return Op::DeleteMissing(gen_name(fs, rng, &w.dirs)); }
     Op::Delete(pick(rng))
@@ -980,6 +995,37 @@ fn apply_op(w: &mut World, op: Op, rng: &mut Rng, free: usize, vd: &mut Verdicts
                 Err(pn) => { vd.panic(&pn, "mkdir", &w.hist.clone()); return format!("ABORT {}", d); }
                 Ok(Ok(_)) => { if dup { vd.v(Focus::C05, false, "duplicate-mkdir-refused", &format!("mkdir onto existing {}", cp), &w.hist.clone()); return format!("ABORT {}", d); } w.dirs.insert(cp); }
                 Ok(Err(_)) => {}
+            }
+            d
+        }
+        Op::PutBad(kind) => {
+            // a file image that cannot be recorded must be refused before anything is written (C01: never "stored as something else",
+            // C02: the other files stay intact — checked by the bystander oracle and, byte for byte, by the concrete-model tie)
+            let name = gen_name(fs, rng, &BTreeSet::new());
+            let cp = canon_path(fs, &name);
+            if w.files.contains_key(&cp) || w.dirs.contains(&cp) { return String::from("skip"); }
+            let mut fimg = match guarded(|| w.disk.new_fimg(None, true, &name).map_err(|e| e.to_string())) { Ok(Ok(f)) => f, _ => return String::from("skip") };
+            fimg.fs_type = vec![5, 0];
+            match kind {
+                0 => { fimg.chunks.insert(0, gen_chunk(rng, 512)); fimg.chunks.insert(1, gen_chunk(rng, 7)); fimg.set_eof(2 * 512 + 1 + rng.below(5000)); }
+                1 => { fimg.chunks.insert(0, gen_chunk(rng, 513)); fimg.chunks.insert(1, gen_chunk(rng, 10)); fimg.set_eof(522); }
+                2 => { for i in 0..200usize { fimg.chunks.insert(i, vec![(i & 0xff) as u8]); } fimg.set_eof(1 + rng.below(30000)); }
+                _ => { for i in 0..65536usize { fimg.chunks.insert(i, vec![(i & 0xff) as u8]); } fimg.set_eof(512 * 65536 - 511); }
+            }
+            let res = guarded(|| w.disk.put(&fimg).map_err(|e| e.to_string()));
+            let d = format!("put-bad {} kind={} chunks={} eof={} => {}", name, kind, fimg.chunks.len(), fimg.get_eof(), match &res { Ok(Ok(_)) => "ok".to_string(), Ok(Err(e)) => format!("err:{}", err_class(e)), Err(_) => "PANIC".to_string() });
+            w.hist.push(d.clone());
+            w.lean_op = Some(format!("put {} {} 0 0 0 -", hxs(&cp), res_tok(&res)));
+            if fs == Fs::Pascal {
+                let mut keys: Vec<usize> = fimg.chunks.keys().cloned().collect();
+                keys.sort();
+                let pcs = keys.iter().map(|i| format!("{}:{}", i, hx(&fimg.chunks[i]))).collect::<Vec<_>>().join(",");
+                w.pas_op = Some((format!("put {} {} {} {} {} {}", hxs(&name), fimg.get_ftype(), fimg.get_eof(), hx(&pas_date()), pas_res(&res), pcs), None));
+            }
+            match res {
+                Err(p) => { vd.panic(&p, "put", &w.hist.clone()); return format!("ABORT {}", d); }
+                Ok(Ok(_)) => { for f in [Focus::C01, Focus::C02] { vd.v(f, false, "unrecordable-put-refused", &format!("put of a file image that cannot be recorded was accepted: {}", d), &w.hist.clone()); } return format!("ABORT {}", d); }
+                Ok(Err(_)) => { for f in [Focus::C01, Focus::C02] { vd.v(f, true, "unrecordable-put-refused", "", &[]); } }
             }
             d
         }
@@ -1303,11 +1349,13 @@ fn pas_tie(drv: &mut Drv, w: &mut World, vd: &mut Verdicts, req: &str, expect: O
 }
 /// after every step: free count, catalog, and (after a successful put) the file as `get` returns it
 fn pas_queries(drv: &mut Drv, w: &mut World, vd: &mut Verdicts, desc: &str) {
-    if let Ok(f) = w.free() { pas_tie(drv, w, vd, "free", Some(format!("ok {}", f)), desc); }
-    if let Ok(Ok(rows)) = guarded(|| w.disk.catalog_to_vec("/").map_err(|e| e.to_string())) {
+    // free count and catalog are functions of the image, which the operation tie has just compared: ask for them
+    // (one round trip) only after a step that changed it
+    if !(desc.ends_with("=> ok") || desc == "format") { return; }
+    if let (Ok(f), Ok(Ok(rows))) = (w.free(), guarded(|| w.disk.catalog_to_vec("/").map_err(|e| e.to_string()))) {
         let code = |t: &str| -> String { match t { "NONE" => "0".into(), "BAD" => "1".into(), "CODE" => "2".into(), "TEXT" => "3".into(), "INFO" => "4".into(), "DATA" => "5".into(), "GRAF" => "6".into(), "FOTO" => "7".into(), "SECURE" => "8".into(), x => u8::from_str_radix(x.trim_start_matches('$'), 16).map(|v| v.to_string()).unwrap_or(x.to_string()) } };
         let items: Vec<String> = rows.iter().map(|r| { let t: Vec<&str> = r.split_whitespace().collect(); if t.len() == 3 { format!("{}:{}:{}", hxs(t[2]), t[1], code(t[0])) } else { format!("?{}", r.replace(' ', "_")) } }).collect();
-        pas_tie(drv, w, vd, "cat", Some(format!("ok {}", if items.is_empty() { "-".to_string() } else { items.join(",") })), desc);
+        pas_tie(drv, w, vd, "q", Some(format!("ok {} {}", f, if items.is_empty() { "-".to_string() } else { items.join(",") })), desc);
     }
     if desc.starts_with("put ") && desc.ends_with("=> ok") {
         let name = desc.splitn(2, ' ').nth(1).unwrap_or("").split(" chunks=").next().unwrap_or("").to_string();
